@@ -224,7 +224,7 @@ def vm_crosscheck(lines, expected, workdir=None):
     lines: list of (id, coq_term_string) ; expected: dict id -> string.  Returns list of mismatching ids."""
     workdir = C.ensure_dir(workdir or os.path.join(C.BUILD, "vmcheck"))
     src = ["From Coq Require Import ZArith QArith List String.",
-           "From UomV Require Import Model.Tables Model.Conv Model.FloatM Model.Exact Model.Run.",
+           "From UomV Require Import Model.Tables Model.Conv Model.FloatM Model.FloatOps Model.Exact Model.Quantity Model.Storages Model.Run.",
            "Import ListNotations. Open Scope Z_scope."]
     for cid, term in lines:
         src.append(f'Goal True. idtac "@@ {cid}". exact I. Qed.')
@@ -255,7 +255,7 @@ def vm_crosscheck(lines, expected, workdir=None):
         if val is None:
             bad.append((cid, text, expected.get(cid)))
             continue
-        val = val.replace("%Z", "").replace("(", "").replace(")", "").strip()
+        val = val.replace("%Z", "").replace("(", "").replace(")", "").replace("[", "").replace("]", "").replace(";", " ").strip()
         if val != str(expected.get(cid)):
             bad.append((cid, val, expected.get(cid)))
     return bad, out
